@@ -44,8 +44,12 @@ def _iid_of(f):
 async def _requester(rng, desc):
     from ..rawpeer import RawWorld
     from ..apps import RecSubscriber, make_payload, DIR_REQUEST, DIR_RESPONSE
-    rw = RawWorld(rng, 'c', link_kind=desc['link'], frag=desc['frag'],
-                  client_kwargs={'honor_lease': True, 'request_queue_size': desc['queue_size']})
+    ckw = {'honor_lease': True, 'request_queue_size': desc['queue_size']}
+    if desc.get('own_publisher'):
+        # the client is a responder too and grants leases of its own to the peer: they must not count as leases
+        # it has received
+        ckw['lease_publisher'] = ScriptedLeasePublisher([tuple(x) for x in desc['own_publisher']])
+    rw = RawWorld(rng, 'c', link_kind=desc['link'], frag=desc['frag'], client_kwargs=ckw)
     await rw.start()
     world = rw.world
     loop = asyncio.get_event_loop()
@@ -255,8 +259,12 @@ def gen_requester(rng):
                          'dl': rng.choice([8, 20, 200, 700]), 'boundary': boundary})
         iid += 1
     timeline.sort(key=lambda e: (e['t'], 0 if e['kind'] == 'lease' else 1, e.get('iid', 0)))
+    own = None
+    if rng.random() < 0.25:
+        own = [[rng.choice([0.0, 0.0, 0.3]), rng.choice([1, 5, 100]), rng.choice([1000, 60000])]
+               for _ in range(rng.choice([1, 2]))]
     return {'link': rng.choice(['bytes', 'messages']), 'frag': rng.choice([None, None, 64, 100]),
-            'queue_size': rng.choice([0, 0, 1, 3]), 'timeline': timeline, 'tail': 2.0}
+            'queue_size': rng.choice([0, 0, 1, 3]), 'timeline': timeline, 'tail': 2.0, 'own_publisher': own}
 
 
 def run_reconnect(idx, rng):
